@@ -34,8 +34,8 @@ impl Prop for C05 {
     fn phases(&self, tier: Tier) -> Vec<Phase> {
         vec![
             Phase::new("gprog-stress", tier.pick(1600, 60000)).min_cases(tier.pick(400, 15000)).timeouts(120, tier.pick(300, 1500)),
-            Phase::new("alloc-family", tier.pick(480, 12000)).min_cases(tier.pick(100, 3000)).timeouts(180, tier.pick(300, 1500)),
-            Phase::new("alloc-family-asan", tier.pick(48, 3000)).build(Build::Asan).min_cases(tier.pick(20, 800)).timeouts(300, tier.pick(300, 1500)),
+            Phase::new("alloc-family", tier.pick(480, 5000)).min_cases(tier.pick(100, 1200)).timeouts(180, tier.pick(300, 1500)),
+            Phase::new("alloc-family-asan", tier.pick(48, 240)).build(Build::Asan).min_cases(tier.pick(20, 60)).timeouts(300, tier.pick(300, 1500)),
         ]
     }
     fn worker(&self, ctx: &WorkerCtx) -> Box<dyn Worker> {
